@@ -146,6 +146,9 @@ func (m *Machine) call(caller *frame, callpos token.Pos, fn value, args []value)
 }
 
 func (m *Machine) callSSA(caller *frame, callpos token.Pos, fn *ssa.Function, args []value, env []value) value {
+	if r, ok := m.Redirect[fn]; ok {
+		fn = r
+	}
 	fr := &frame{m: m, caller: caller, fn: fn}
 	if m.SummarizeGFMul && fn.Name() == "Multiply" && fn.String() == "(*"+gfType+").Multiply" {
 		if _, s1 := args[1].(*term.Term); s1 {
@@ -154,6 +157,9 @@ func (m *Machine) callSSA(caller *frame, callpos token.Pos, fn *ssa.Function, ar
 		if _, s2 := args[2].(*term.Term); s2 {
 			return m.gfMulSummary(fr, args)
 		}
+	}
+	if fn.Synthetic == "package initializer" && m.InitAllowed != nil && !m.InitAllowed(fn.Pkg) {
+		return nil
 	}
 	if fn.Parent() == nil {
 		name := fn.String()
